@@ -650,6 +650,15 @@ class Intrinsics:
         except MergeAbort:
             raise InterpError(f'ite of incompatible values {a!r}, {b!r}')
 
+    def s_case_split(self, P, *conds):
+        if getattr(P, 'hints_off', 0):
+            return True
+        for c in conds:
+            c = P.truthy(c)
+            if not isinstance(c, bool):
+                P.branch(c, 'case_split')
+        return True
+
     def s_is_none(self, P, v):
         return v is None
 
